@@ -144,9 +144,22 @@ def r1(ctx, R):
         R.bad(gm, gm.node, "inconsistent hierarchies are not refused", stmt="raise TypeError")
     R.inst("get_mro merges the linearisations of the direct bases AND the list of direct bases itself (local precedence)")
     sv = assigned_value(gm, "seqs")
-    txt = norm(sv[0]) if sv else ""
-    if not (len(sv) == 1 and "self.get_mro(base) for base in self.ordered_preds(node)" in txt
-            and txt.rstrip().endswith("+ [self.ordered_preds(node)]")):
+    DIRECT = "self.ordered_preds(node)"
+
+    def _flat(e):
+        if isinstance(e, ast.BinOp) and isinstance(e.op, ast.Add):
+            return _flat(e.left) + _flat(e.right)
+        return [e]
+    parts = _flat(sv[0]) if len(sv) == 1 else []
+    # elements appended before the merge loop starts (straight-line code only)
+    for c_ in q.calls(gm, name="append", recv="seqs"):
+        if enclosing_for(gm, c_) is None and c_.args:
+            parts.append(ast.List(elts=[c_.args[0]], ctx=ast.Load()))
+    okm = len(parts) == 2 and isinstance(parts[0], ast.ListComp) and len(parts[0].generators) == 1 \
+        and not parts[0].generators[0].ifs and q.rnorm(gm, parts[0].generators[0].iter) == DIRECT \
+        and norm(parts[0].elt) == "self.get_mro(%s)" % norm(parts[0].generators[0].target) \
+        and isinstance(parts[1], ast.List) and len(parts[1].elts) == 1 and q.rnorm(gm, parts[1].elts[0]) == DIRECT
+    if not okm:
         R.bad(gm, gm.node, "the order of a space's own direct bases is not one of the merged sequences: with three or more "
                            "bases the linearisation (and `bases`) can put a later base before an earlier one",
               stmt="seqs = [mro(b) for b in bases] + [bases]")
